@@ -1,5 +1,6 @@
 import Svgbob.Proofs.Lines
 import Svgbob.Proofs.TrailingBlanks
+import Svgbob.Proofs.WholeLineEnds
 /-!
 # C17 — line endings and invisible trailing whitespace do not change the output
 
@@ -66,5 +67,28 @@ example : parseCssLegend "# Legend:\na = {fill:red}\nb = {stroke:blue}".toList =
     some [("a".toList, "fill:red".toList), ("b".toList, "stroke:blue".toList)] := by decide
 example : parseCssLegend "# Legend:\r\na = {fill:red}\r\nb = {stroke:blue}\r\n".toList =
     some [("a".toList, "fill:red".toList), ("b".toList, "stroke:blue".toList)] := by decide
+
+/-! ### the whole conversion (`Model/Convert.convertDoc`, the function the driver serializes) -/
+
+/-- **LF or CRLF**: a legend-free document without stray carriage returns converts to the same
+document under either convention — for every environment, settings value and catalogue -/
+theorem whole_conversion_ignores_crlf (env : Env) (cfg : Cfg) (cat : Catalogue) (s : List Char)
+    (hr : '\r' ∉ s) (hl : findLegend s = none) :
+    convertDoc env cfg cat (crlf s) = convertDoc env cfg cat s :=
+  convertDoc_crlf env cfg cat s hr hl
+
+/-- **trailing blank lines**: any number of line feeds appended changes nothing -/
+theorem whole_conversion_ignores_trailing_line_feeds (env : Env) (cfg : Cfg) (cat : Catalogue)
+    (s : List Char) (k : Nat) (hr : '\r' ∉ s) (hl : findLegend s = none) :
+    convertDoc env cfg cat (s ++ List.replicate k '\n') = convertDoc env cfg cat s :=
+  convertDoc_append_nls env cfg cat s k hr hl
+
+/-- the legend marker is found at the same place in the CRLF copy: none before, none after -/
+theorem no_marker_in_the_crlf_copy (s : List Char) (h : findLegend s = none) :
+    findLegend (crlf s) = none := findLegend_crlf_none s h
+
+/-- the hypotheses are satisfiable (labelled as test) -/
+example : '\r' ∉ "+-+\n| |\n+-+\n".toList ∧ findLegend "+-+\n| |\n+-+\n".toList = none := by
+  decide +kernel
 
 end Svgbob.C17
